@@ -448,14 +448,14 @@ def run_session(ctx: Ctx, pool: list[dict[str, Any]], ops: list[list[Any]], proj
 # fresh-process oracle
 
 
-def fresh_results(ctx: Ctx, proj: str, queries: list[dict[str, Any]], hash_seed: str) -> dict[str, list[Any]]:
+def fresh_results(ctx: Ctx, proj: str, queries: list[dict[str, Any]], hash_seed: str, jobs: int = 4) -> dict[str, list[Any]]:
 	if not queries:
 		return {}
 	env = dict(os.environ)
 	env['PYTHONHASHSEED'] = hash_seed
 	env['PYTHONPATH'] = f"{os.path.join(common.VERIF, 'compat')}:{common.REPO}:{common.VERIF}"
 	env['PYTHONDONTWRITEBYTECODE'] = '1'
-	req = json.dumps({'proj': proj, 'queries': queries, 'jobs': 4})
+	req = json.dumps({'proj': proj, 'queries': queries, 'jobs': jobs})
 	try:
 		p = subprocess.run(['/venv/bin/python', os.path.join(common.VERIF, 'harness', 'c04_fresh.py')], input=req, capture_output=True,
 			text=True, cwd=common.REPO, env=env, timeout=1200)
@@ -497,8 +497,14 @@ def compare_with_fresh(ctx: Ctx, res: SearchResult, case: dict[str, Any], run: d
 		if qid not in queries:
 			queries[qid] = {'id': qid, 'module': r['target']} if r['target'] != MAIN else {'id': qid, 'main': r['main']}
 	fresh_by_seed: dict[str, dict[str, list[Any]]] = {}
-	for hs in seeds:
-		fresh_by_seed[hs] = fresh_results(ctx, run['proj'], list(queries.values()), hs)
+	if len(seeds) == 1:
+		fresh_by_seed[seeds[0]] = fresh_results(ctx, run['proj'], list(queries.values()), seeds[0])
+	else:
+		from concurrent.futures import ThreadPoolExecutor
+		with ThreadPoolExecutor(max_workers=len(seeds)) as ex:
+			futs = {hs: ex.submit(fresh_results, ctx, run['proj'], list(queries.values()), hs, 2) for hs in seeds}
+			for hs, fu in futs.items():
+				fresh_by_seed[hs] = fu.result()
 	base = fresh_by_seed[seeds[0]]
 	for hs in seeds[1:]:
 		for qid, fr in fresh_by_seed[hs].items():
@@ -723,9 +729,30 @@ def search_runner(ctx: Ctx) -> SearchResult:
 # ---------------------------------------------------------------------------------------------
 
 
-STATEMENTS: dict[str, str] = {}
-PARTIAL: dict[str, Any] = {}
-ASSUMPTIONS: list[str] = []
+STATEMENTS: dict[str, str] = {
+	'inv': 'Coherent (every memo entry = the pure node function on the tree of its entrypoint; every entrypoint / cached AST = parse of the current source; symbol keys only of registered modules; symbol files only keys of their module; every entrypoint registered) holds in a fresh process and after every operation, also the ones that raise half-way',
+	'frame': 'load m (ok or raising) leaves entrypoint + memo tables, symbol table entries, completed flag of every already registered module, all stored symbol files and both stacks unchanged',
+	'unload_clears / unload_frame / unload_exact': 'unload m removes module, entrypoint, completed flag and exactly the keys full_joined(m, l); keys of every other module stay, also of modules whose name has m as string prefix (app.a / app.ab), proved on the key strings',
+	'stack_frames': 'a transpile leaves both stacks unchanged when it succeeds and at most its own frame on top when it raises; frames below are never touched or read',
+	'inv_settled': 'Stable = Coherent + every registered module that has a reference table (Good) holds exactly it, its imports are registered, symbol files equal reference tables; preserved by every safe op (unload m safe = no registered module imports m)',
+	'det_partial': 'in every state reachable by safe ops from a stable state, transpile m of a Good module = render(m, tree, reference tables): a function of the current sources only (texts and render errors alike)',
+	'unload_load': 'unload m; load m gives m the tree of its source and exactly its reference table, as a load in any other stable state does',
+	'targets_sound / targets': 'every result the Runner produces is the reference result of its target; runs over permuted target lists without failing target produce the same (target, text) pairs',
+	'det_counterexample_failed_load / _dep_unloaded / _lib_closure_first': 'NOT det_statement: three concrete histories on which the model (and the real code, same witnesses in corpus/C04) answers transpile differently from a fresh process',
+}
+PARTIAL: dict[str, Any] = {
+	'proved': 'cache coherence for all histories (inv, frame, unload_*, stack_frames); determinism, unload/load = fresh load and target-order equivariance for Good modules along safe histories (det_partial, unload_load, targets)',
+	'false_on_current_code': 'det_statement (all histories): refuted by det_counterexample_* = known findings failed-load-retry, dep-unloaded, lib-closure-first',
+	'correspondence_only': 'that the real Modules/Entrypoints/SymbolDB/processors/transpile stacks behave like the model on generated pools (streams session, session-faulty); the concrete descriptor language (which keys ExpandModules inserts, when the renderer fails)',
+	'search_only': 'PYTHONHASHSEED independence, byte equality of real texts with a fresh process, purity of Jinja/i18n rendering, node classes / symbol object identity of untouched modules',
+}
+ASSUMPTIONS: list[str] = [
+	'module names are non-empty and contain no "#" (GoodName; true of dotted Python paths)',
+	'ExpandModules reads the symbol table only at keys of the module, its direct imports and the pinned base (World.local_expand); the renderer depends only on the tables of an import-closed set containing the module and the base (RenderLocal) — both proved for the descriptor language of the driver (desc_local_expand, desc_render_local)',
+	'for det_partial: acyclic import graph (rank), no file imports the in-memory module, the library modules stay loaded (base), and no operation hit RecursionError (model fuel)',
+	'SymbolDB key order inside one module and the `_order_keys` order of symbol files are not modelled (no modelled consumer reads the order); store/restore is modelled as saving / re-inserting the module rows',
+	'per-module DI containers (lang/di.py combine) are not part of this model (C19); all node memo tables of a module are modelled as one memo table per entrypoint',
+]
 
 
 def run(ctx: Ctx) -> int:
@@ -741,14 +768,14 @@ def run(ctx: Ctx) -> int:
 		return common.finish(ctx, proof, [], [res], statements=STATEMENTS, partial=PARTIAL, assumptions=ASSUMPTIONS)
 	corpus = [norm_case(c) for c in corpus_cases()]
 	with ctx.timed('generate'):
-		valid = gen_cases(ctx, 'session', ctx.scale(8, 60), ctx.scale(12, 40), 0.15)
-		faulty = gen_cases(ctx, 'session-faulty', ctx.scale(5, 40), ctx.scale(12, 40), 1.0)
+		valid = gen_cases(ctx, 'session', ctx.scale(10, 60), ctx.scale(12, 40), 0.15)
+		faulty = gen_cases(ctx, 'session-faulty', ctx.scale(6, 40), ctx.scale(12, 40), 1.0)
 	with ctx.timed('correspondence'):
 		streams = [stream_session(ctx, 'session', [*corpus, *valid]), stream_session(ctx, 'session-faulty', faulty)]
 	with ctx.timed('search'):
-		fresh_cases = [*corpus, *valid[:ctx.scale(3, 20)], *faulty[:ctx.scale(2, 12)]]
+		fresh_cases = [*corpus, *valid[:ctx.scale(4, 20)], *faulty[:ctx.scale(3, 12)]]
 		searches = [
-			search_fresh(ctx, fresh_cases, ctx.scale(len(corpus) + 1, len(corpus) + 4)),
+			search_fresh(ctx, fresh_cases, ctx.scale(2, len(corpus) + 4)),
 			search_frame(ctx, [*corpus, *valid, *faulty]),
 			search_interactive(ctx),
 			search_runner(ctx),
